@@ -82,9 +82,9 @@ verify_before_write() {
 echo "[selftest] case 0: pristine copy"
 if run_tr base; then
   ok=1
-  for f in handlers.v perms.v nondet.v; do [ -s "$SCR/out/base/$f" ] || ok=0; done
+  for f in handlers.v perms.v nondet.v genesis.v; do [ -s "$SCR/out/base/$f" ] || ok=0; done
   # the scratch copy must give the same tables as the original tree
-  [ "$ok" = 1 ] && pass "pristine: three tables generated" || fail "pristine: missing output file"
+  [ "$ok" = 1 ] && pass "pristine: four tables generated" || fail "pristine: missing output file"
   ev="$(events "$SCR/out/base" house Withdraw)"
   if [ "$ev" != MISSING ] && verify_before_write "$ev"; then
     pass "pristine: house/Withdraw verifies before writing ($ev)"
@@ -266,6 +266,37 @@ else
   fail "vi: translator run"
 fi
 restore app/keepers/keepers.go
+
+# --------------------------------------------------------------------------
+echo "[selftest] case vii: reward ExportGenesis no longer exports the campaigns"
+# gexported <dir> <module>: prints the gm_exported list of one module
+gexported() {
+  python3 - "$1/genesis.v" "$2" <<'EOF'
+import re, sys
+src = open(sys.argv[1]).read()
+m = re.search(r'gm_name := "%s";.*?gm_exported := \[([^\]]*)\]' % re.escape(sys.argv[2]), src, re.S)
+print(m.group(1) if m else "MISSING")
+EOF
+}
+python3 - "$SREPO/x/reward/genesis.go" <<'EOF'
+import sys
+p = sys.argv[1]; s = open(p).read()
+line = "\tgenesis.CampaignList = k.GetAllCampaign(ctx)\n"
+assert s.count(line) == 1
+open(p, "w").write(s.replace(line, "", 1))
+EOF
+if run_tr c7; then
+  e0="$(gexported "$SCR/out/base" reward)"; e1="$(gexported "$SCR/out/c7" reward)"
+  if echo "$e0" | grep -q '"CampaignKeyPrefix"' && ! echo "$e1" | grep -q '"CampaignKeyPrefix"' \
+     && echo "$e1" | grep -q '"PromoterKeyPrefix"'; then
+    pass "vii: CampaignKeyPrefix disappeared from reward gm_exported ($e1)"
+  else
+    fail "vii: expected CampaignKeyPrefix to disappear from reward gm_exported; before: $e0; after: $e1"
+  fi
+else
+  fail "vii: translator run"
+fi
+restore x/reward/genesis.go
 
 # --------------------------------------------------------------------------
 if [ "$FAILS" -eq 0 ]; then
